@@ -54,7 +54,7 @@ def generate(rng, ctx):
 
         obj = _copy.deepcopy(PYOBJ[rng.choice(sorted(PYOBJ))])
         (t1 if rng.random() < 0.5 else t2)["extra0"] = rng.choice([obj, [1, obj], {"k": obj}])
-    fault = weighted(rng, [(3, "none"), (2, "unencodable"), (2, "keyfile"), (1.5, "keyfile-same-secret"), (1.5, "rekey"), (1, "format"),
+    fault = weighted(rng, [(3, "none"), (2, "unencodable"), (2, "keyfile"), (1.5, "keyfile-same-secret"), (1.5, "rekey"), (1, "option-values"), (1, "format"),
                            (1, "option"), (2, "domain")])
     return {"schema": schema, "fmt": fmt, "t1": t1, "t2": t2, "fault": fault, "r": rng.getrandbits(30),
             "dest_form": rng.choice(["abs", "abs", "rel", "home"]), "grow": rng.random() < 0.4, "self_include": rng.random() < 0.25,
@@ -227,8 +227,26 @@ def _run(case, ctx, res, cc, env, fmt, root, built, keypath, cfg, dest):
         # the key file is replaced by another valid key between two saves of an unchanged secret: no failure expected,
         # but what is written must load back with the key file as it is now
         cfg.sec0 = case["t1"].get("sec0") or "tk%016x" % case["r"]
+        try:
+            before = os.stat(keypath)
+        except OSError:
+            before = None
         with open(keypath, "wb") as fp:
             fp.write(bytes((case["r"] * 7 + i * 11) % 256 for i in range(32)))
+        if before is not None and case["r"] % 2:
+            # the other key comes with the old file's time stamps (restored from a backup with cp -p / rsync -t): same size, same times
+            os.utime(keypath, ns=(before.st_atime_ns, before.st_mtime_ns))
+            res.count("key_files_replaced_with_time_stamps_kept")
+    elif fault == "option-values":
+        # a formatter option given two values one after the other: the document is written with the value of THIS call
+        earlier = {"xml": {"root_tag": "app"}, "yaml": {"root_key": "app"}, "json": {"pretty": True}}.get(fmt)
+        if earlier:
+            try:
+                cfg.dumps(fmt, **earlier)
+                res.count("formatter_options_given_another_value_before")
+            except Exception:
+                pass
+            kwargs = {"xml": {"root_tag": "settings"}, "yaml": {"root_key": "settings"}, "json": {"pretty": False}}[fmt]
     elif fault == "format":
         usefmt = ["toml", "JSON", "", "ini"][case["r"] % 4]
     elif fault == "option":
@@ -251,6 +269,29 @@ def _run(case, ctx, res, cc, env, fmt, root, built, keypath, cfg, dest):
     ok = _judged_save(cc, ctx, res, cfg, built, root, dest, usefmt, kwargs, log, keypath, "fault:" + fault)
     if ok is None:
         return
+    if ok is True and fault == "option-values" and fmt in ("xml", "yaml") and kwargs:
+        # read with a decoder of our own (the library's would be the one that wrote it): the document's root is the one asked for now
+        try:
+            with open(os.path.abspath(dest), "rb") as fp:
+                raw = fp.read()
+            if fmt == "xml":
+                import xml.etree.ElementTree as _ET
+
+                top = _ET.fromstring(raw).tag
+            else:
+                import yaml as _yaml
+
+                doc = _yaml.safe_load(raw)
+                top = list(doc)[0] if isinstance(doc, dict) and len(doc) == 1 else None
+        except Exception:
+            top = "settings"
+            res.count("documents_not_readable_by_the_independent_decoder")
+        else:
+            res.count("document_roots_read_by_an_independent_decoder")
+        if top != "settings":
+            res.viol("M-file", "written-with-the-options-of-an-earlier-call:" + fmt, "save(..., %r) after dumps(..., %r) wrote a document whose "
+                     "root is %r" % (kwargs, {"xml": {"root_tag": "app"}, "yaml": {"root_key": "app"}}[fmt], top))
+            return
     if ok is False:
         res.count("natural_failures_judged")
         res.nontrivial(case["schema"], case["t1"], case["t2"], fmt, fault, case["r"])
@@ -261,7 +302,7 @@ def _run(case, ctx, res, cc, env, fmt, root, built, keypath, cfg, dest):
             cfg.extra0 = None
         if fault in ("format", "option"):
             pass
-    elif fault not in ("none", "rekey"):
+    elif fault not in ("none", "rekey", "option-values"):
         res.count("fault_did_not_fail:" + fault)
         if fault == "keyfile-same-secret":
             os.unlink(keypath)
